@@ -1,4 +1,5 @@
 import SpecVerif.Model.C17Impl
+import SpecVerif.Model.C17Reg
 /-!
 Line-protocol driver for the C17 correspondence: evaluates the definitions of
 `SpecVerif.C17` that the theorems of `Props/C17.lean` are about.
@@ -31,6 +32,22 @@ sentinel MISSING/EMPTY/UNCHANGED, `F.…` is falsy, everything else a plain trut
   obj <self|new> <name=value,…|->     attributes of the receiver / of the replacement object   -> `obj`
   upd <npos> <kw>*                    `runUpdate` (after `method update …`); positional 1 is the replacement
      -> `err TypeError` | `ok <self|new|copy> ;; res <fields> ;; self <fields> ;; new <fields>`
+
+Which method a name resolves to (Model/C17Reg.lean): classes are numbers; the world is declared first, then events.
+
+  rnew                                 forget the world and the state                                  -> `rnew`
+  rcls <id> <spec> <lazy> <bases|-> <mro> <hand|-> <eager|-> <meth>*      declares a class (no event)   -> `rcls`
+        bases/mro/hand/eager = comma lists (mro: the class itself first); meth = name|kind|key|nested|look — the
+        configuration of every method the bootstrap generates for the class (those not in `eager` are descriptors);
+        look = id of the class whose `__spec_class__` is looked at when the method is BUILT (`-`: none)
+  rdef <id>                            the class statement (+ decorator) runs        -> `def <bootstrapped ids|->`
+  rboot <id>                           `C.__spec_class__` is looked at               -> `boot <bootstrapped ids|->`
+  rget <id> <name>                     `getattr(C, name)`
+  riget <id> <name>                    `getattr(C(), name)`
+  rsget <id> <k> <name>                `getattr(super(K, C()), name)`
+     -> `boot <ids> ;; get p=<provider> was=<desc|fn|hand> for=<class|-> np=<provider afterwards> now=<desc|fn|hand> ;; adv <sig|hand>`
+      | `boot <ids> ;; err AttributeError`
+        and the builder of the method found becomes the current one (`call` lines may follow)
 -/
 open SpecVerif.Py SpecVerif.C17
 
@@ -115,6 +132,9 @@ structure St where
   cfg : InitCfg := ⟨[], none, []⟩
   selfF : Fields String := []
   newF : Fields String := []
+  rw : List (Nat × Reg.RCls) := []
+  rcfg : List (Nat × Name × MethodCfg) := []
+  rs : Reg.RState := Reg.RState.empty
 
 /-! ### behaviour commands -/
 
@@ -200,6 +220,51 @@ def finish (st : St) (b : Builder) : St × String :=
   if r == "ok" then ({ st with b := b, built := true }, "build ok ;; " ++ showBuilder b)
   else ({ st with b := b, built := false }, "build " ++ r)
 
+
+/-! ### registration / resolution commands -/
+
+def commaList (t : String) : List String := if t == "-" then [] else t.splitOn ","
+
+def worldOf (rw : List (Nat × Reg.RCls)) : Reg.World := fun i =>
+  match rw.find? (·.1 == i) with
+  | some (_, r) => r
+  | none => default
+
+def parseMeth (t : String) : Option (Name × MethodCfg × Option Nat) :=
+  match t.splitOn "|" with
+  | [n, k, key, nested, look] => do
+    pure (n, ⟨← parseMKind k, ← parseKey key, ← parseNested nested⟩, look.toNat?)
+  | _ => none
+
+def showBooted (st : St) : String :=
+  let ids := (st.rw.map (·.1)).filter (fun i => st.rs.booted i)
+  if ids.isEmpty then "-" else ",".intercalate (ids.map toString)
+
+def showEntryKind : Reg.Entry → String
+  | .desc _ => "desc" | .fn _ => "fn" | .hand => "hand"
+
+/-- a lookup through `mro` on the state `rs` (already bootstrapped as the event demands) -/
+def regAccess (st : St) (rs : Reg.RState) (mro : List Nat) (n : Name) : St × String :=
+  let (rs', found) := Reg.accessVia (worldOf st.rw) (st.rw.length + 1) rs mro n
+  let st := { st with rs := rs' }
+  let pre := s!"boot {showBooted st} ;; "
+  match found with
+  | none => ({ st with built := false }, pre ++ "err AttributeError")
+  | some (k, e) =>
+    let after := match Reg.lookupFrom rs' mro n with
+      | some (k', e') => s!"np={k'} now={showEntryKind e'}"
+      | none => "np=- now=-"
+    match e with
+    | .hand => ({ st with built := false }, pre ++ s!"get p={k} was=hand for=- {after} ;; adv hand")
+    | .desc o | .fn o =>
+      let head := s!"get p={k} was={showEntryKind e} for={o} {after} ;; adv "
+      match st.rcfg.find? (fun x => x.1 == o && x.2.1 == n) with
+      | none => ({ st with built := false }, pre ++ head ++ "?")
+      | some (_, _, cfg) =>
+        match builderFor cfg with
+        | .ok b => ({ st with b := b, built := buildResult b st.impl == "ok" }, pre ++ head ++ showSig (advertised b))
+        | .error e => ({ st with built := false }, pre ++ head ++ "err " ++ e.name)
+
 def handle (st : St) (line : String) : St × String :=
   match (line.trimAscii.toString.splitOn " ").filter (· ≠ "") with
   | ["impl", s] =>
@@ -255,6 +320,44 @@ def handle (st : St) (line : String) : St × String :=
       | .error e => (st, "err " ++ e.name)
       | .ok r => (st, s!"ok {showSrc r.src} ;; res {showFields r.fields} ;; self " ++
           s!"{showFields (r.selfAfter st.selfF)} ;; new {showFields (r.newAfter st.newF)}")
+  | ["rnew"] => ({ st with rw := [], rcfg := [], rs := Reg.RState.empty, built := false }, "rnew")
+  | "rcls" :: id :: spec :: lz :: bases :: mro :: hand :: eager :: meths =>
+    match id.toNat?, (commaList bases).mapM (·.toNat?), (commaList mro).mapM (·.toNat?), meths.mapM parseMeth with
+    | some id, some bases, some mro, some meths =>
+      let eager := commaList eager
+      let r : Reg.RCls := ⟨spec == "1", lz == "1", bases, mro, commaList hand, eager,
+        (meths.map (·.1)).filter (fun n => !eager.contains n),
+        meths.filterMap (fun m => m.2.2.map (fun t => (m.1, t)))⟩
+      ({ st with rw := st.rw ++ [(id, r)], rcfg := st.rcfg ++ meths.map (fun m => (id, m.1, m.2.1)) }, "rcls")
+    | _, _, _, _ => (st, "bad-op")
+  | ["rdef", c] =>
+    match c.toNat? with
+    | none => (st, "bad-op")
+    | some c =>
+      let st := { st with rs := Reg.define (worldOf st.rw) (st.rw.length + 1) st.rs c }
+      (st, "def " ++ showBooted st)
+  | ["rboot", c] =>
+    match c.toNat? with
+    | none => (st, "bad-op")
+    | some c =>
+      let st := { st with rs := Reg.bootEv (worldOf st.rw) (st.rw.length + 1) st.rs c }
+      (st, "boot " ++ showBooted st)
+  | ["rget", c, n] =>
+    match c.toNat? with
+    | none => (st, "bad-op")
+    | some c => regAccess st st.rs (worldOf st.rw c).mro n
+  | ["riget", c, n] =>
+    match c.toNat? with
+    | none => (st, "bad-op")
+    | some c =>
+      let W := worldOf st.rw
+      regAccess st (Reg.bootEv W (st.rw.length + 1) st.rs c) (W c).mro n
+  | ["rsget", c, k, n] =>
+    match c.toNat?, k.toNat? with
+    | some c, some k =>
+      let W := worldOf st.rw
+      regAccess st (Reg.bootEv W (st.rw.length + 1) st.rs c) (Reg.superMro W c k) n
+    | _, _ => (st, "bad-op")
   | ["sig", s] =>
     match parseSig s with
     | none => (st, "bad-op")
